@@ -140,6 +140,63 @@ def _reads_local(o, l):
     return False
 
 
+def fold_constant_switches(f):
+    """Constant propagation through spliced-in parameters: a helper taking a flag (`fn answer(m, reject: bool)`) called
+    with a literal is read, at that call site, as the branch the literal selects. A `switchInt` on a local whose only
+    definition is a bool/int constant (directly or through plain copies), and that is never mutably borrowed, becomes
+    a `goto`. Returns the number of folded switches."""
+    body = f["body"]
+    B = body["blocks"]
+    ndefs, cdef, copyof, mutref = {}, {}, {}, set()
+    for b in B:
+        for st in b["stmts"]:
+            if st["k"] != "assign":
+                continue
+            rv = st["rv"]
+            if "ref" in rv and rv.get("mut"):
+                mutref.add(rv["ref"]["l"])
+            if "rawptr" in rv:
+                mutref.add(rv["rawptr"]["l"])
+            pl = st["place"]
+            ndefs[pl["l"]] = ndefs.get(pl["l"], 0) + 1
+            if pl["p"]:
+                ndefs[pl["l"]] += 1   # partial write: not a plain constant
+                continue
+            if "use" in rv:
+                u = rv["use"]
+                if "const" in u and isinstance(u["const"].get("val"), dict) and "int" in u["const"]["val"] and u["const"].get("ty") in ("bool", "u8", "u16", "u32", "u64", "usize", "i32", "i64", "isize"):
+                    cdef[pl["l"]] = u["const"]["val"]["int"]
+                else:
+                    src = u.get("copy") or u.get("move")
+                    if src is not None and not src["p"]:
+                        copyof[pl["l"]] = src["l"]
+        t = b["term"]
+        if t["k"] == "call" and t.get("dest"):
+            ndefs[t["dest"]["l"]] = ndefs.get(t["dest"]["l"], 0) + 2
+    argc = body["arg_count"]
+    const = {l: v for l, v in cdef.items() if ndefs.get(l) == 1 and l not in mutref and l > argc}
+    for _ in range(4):
+        for l, srcl in copyof.items():
+            if l not in const and ndefs.get(l) == 1 and l not in mutref and l > argc and srcl in const:
+                const[l] = const[srcl]
+    n = 0
+    for b in B:
+        t = b["term"]
+        if t["k"] != "switch":
+            continue
+        op = t["op"].get("copy") or t["op"].get("move")
+        if op is None or op["p"] or op["l"] not in const:
+            continue
+        v = const[op["l"]]
+        tgt = t["otherwise"]
+        for tv, tg in t["targets"]:
+            if tv == v:
+                tgt = tg
+        b["term"] = {"k": "goto", "target": tgt, "s": t["s"]}
+        n += 1
+    return n
+
+
 def _all_defs(B, l):
     out = []
     for b in B:
